@@ -57,7 +57,16 @@ def check(m, run):
         gd1(m, run)
     with run.corroborating(okp('OT3'), 'OT3', rules=('KC1.check-structure',)):
         kc1(m, run)
-    ly4(m, run)
+    # generated knot vectors are decided by exact interpretation of knotvector.generate (KG2); the length evaluator that reads how the
+    # three pieces are concatenated corroborates
+    n_kg = len(run.obs)
+    try:
+        _sd3.kg2(m, run)
+    except AnalysisError as ex:
+        run.error(str(ex))
+    kg_ok = len(run.obs) > n_kg and all(o.ok for o in run.obs[n_kg:])
+    with run.corroborating(kg_ok, 'KG2', rules=('LY4.generate-length',)):
+        ly4(m, run)
     # normalisation is decided exactly on rational knot vectors (NM2); the rule that reads the element map of the comprehension corroborates
     n_nm = len(run.obs)
     try:
@@ -499,7 +508,7 @@ def ly4(m, run):
         ev.run(fi.node.body)
         got = ev.length(ev.ret) if ev.ret is not None else None
         key = '%s :: clamped=%s' % (fi.key, clamped)
-        run.ob('LY4.generate-length', key, got == want, 'length = %s' % got if got == want else 'generated vector has %s knots, the rule m = n + p + 1 needs %s' % (got, want), site(fi))
+        run.ob('LY4.generate-length', key, got is not None and got == want, 'length = %s' % got if got == want else 'generated vector has %s knots, the rule m = n + p + 1 needs %s' % (got, want), site(fi))
         if clamped and ev.pieces:
             # end multiplicities: leading constant piece + first knot of the middle piece
             pcs = ev.pieces
